@@ -103,11 +103,22 @@ fn positions(n: usize, full: bool) -> Vec<(usize, usize)> {
     if !full { if n <= 32 { vec![(0, n)] } else { vec![(0, 16), (n - 16, n)] } }
     else if n <= 65536 { vec![(0, n)] } else { vec![(0, 4096), (n / 2, n / 2 + 64), (n - 4096, n)] }
 }
+// (the loops below compute pat(id, i) incrementally: the dev profile of the harness is opt-level 1 with overflow checks)
 unsafe fn fill(addr: usize, n: usize, id: u64) {
-    for (a, b) in positions(n, true) { for i in a..b { *((addr + i) as *mut u8) = pat(id, i); } }
+    let k = pat(id, 0);
+    for (a, b) in positions(n, true) {
+        let s = std::slice::from_raw_parts_mut((addr + a) as *mut u8, b - a);
+        let mut x = (a as u32).wrapping_mul(7) as u8;
+        for p in s.iter_mut() { *p = k ^ x; x = x.wrapping_add(7); }
+    }
 }
 unsafe fn verify(addr: usize, n: usize, id: u64, full: bool) -> Option<usize> {
-    for (a, b) in positions(n, full) { for i in a..b { if *((addr + i) as *const u8) != pat(id, i) { return Some(i); } } }
+    let k = pat(id, 0);
+    for (a, b) in positions(n, full) {
+        let s = std::slice::from_raw_parts((addr + a) as *const u8, b - a);
+        let mut x = (a as u32).wrapping_mul(7) as u8;
+        for (i, p) in s.iter().enumerate() { if *p != k ^ x { debug_assert!(*p != pat(id, a + i)); return Some(a + i); } x = x.wrapping_add(7); }
+    }
     None
 }
 
@@ -285,6 +296,8 @@ fn drive(cx: &mut Ctx, cell: &str, cj: &Value, put: &mut dyn Put, ops: &[Vec<u64
     }
     if put.supports_free() {
         while let Some(l) = live.pop() {
+            if l.mem { if let Some(i) = unsafe { verify(l.addr, l.len, l.id, true) } {
+                bad!(None, "during the final frees: byte {} of live block #{} [{:#x},+{}) changed", i, l.id, l.addr, l.len); } }
             match guarded(|| put.free(l.id)) {
                 Err(p) => bad!(None, "final free of live block #{} panicked: {}", l.id, p),
                 Ok(false) => bad!(None, "final free of live block #{} was reported as an error", l.id),
@@ -293,7 +306,7 @@ fn drive(cx: &mut Ctx, cell: &str, cj: &Value, put: &mut dyn Put, ops: &[Vec<u64
             if let Some(e) = put.complaint() { bad!(None, "final free of live block #{}: {}", l.id, e); }
             let nl = live.len();
             for j in 0..nl.min(64) { let m = if nl <= 64 { &live[j] } else { &live[(nl - 1).saturating_sub(j * (nl / 64))] };
-                if m.mem { if let Some(i) = unsafe { verify(m.addr, m.len, m.id, if nl <= 64 { false } else { true }) } {
+                if m.mem { if let Some(i) = unsafe { verify(m.addr, m.len, m.id, false) } {
                     bad!(None, "final free of #{}: byte {} of live block #{} changed", l.id, i, m.id); } } }
         }
     }
@@ -1671,7 +1684,7 @@ fn generate(cx: &mut Ctx, args: &Args) {
 
 fn child(args: &Args) {
     let mut cx = Ctx {
-        sum: Summary::new("C07", "histories of allocate(size[,align]) / free(k-th live block) / free(foreign pointer) / arena scope begin-end, 3..70 ops, per pool type and configuration (presets and small custom capacities so that exhaustion, recycling and arena turnover happen); sizes drawn around every size-class boundary (c-9..c+8), around the fast-bin threshold, around the capacity, and u32/usize extremes; every live block carries a position-dependent pattern checked after every operation; a third of the histories also mix in the secondary entry points (bulk requests of 1..40 sizes, housekeeping such as clear / clear_caches / clear_cache / reset / validate / statistics and capacity accessors, RAII guard views, pool handles, typed and slice allocation, requests sized around the reported remaining capacity) and configuration fields no preset sets; 246 deterministic families (presets x internal thresholds: cache bounds 4 / 32 / 64 / 100 / 128, look-ahead 8 / 12, class-table ends, 1 KiB .. 2 MiB tier boundaries, arenas and pools driven to exhaustion, a 4 GiB region) written as (kind, n, size, seed); CacheAlignedVec over seven element types against a Vec shadow; non-trivial = history with at least two allocations"),
+        sum: Summary::new("C07", "histories of allocate(size[,align]) / free(k-th live block) / free(foreign pointer) / arena scope begin-end, 3..70 ops, per pool type and configuration (presets and small custom capacities so that exhaustion, recycling and arena turnover happen); sizes drawn around every size-class boundary (c-9..c+8), around the fast-bin threshold, around the capacity, and u32/usize extremes; every live block carries a position-dependent pattern checked after every operation; a third of the histories also mix in the secondary entry points (bulk requests of 1..40 sizes, housekeeping such as clear / clear_caches / clear_cache / reset / validate / statistics and capacity accessors, RAII guard views, pool handles, typed and slice allocation, requests sized around the reported remaining capacity) and configuration fields no preset sets; 248 deterministic families (presets x internal thresholds: cache bounds 4 / 32 / 64 / 100 / 128, look-ahead 8 / 12, class-table ends, 1 KiB .. 2 MiB tier boundaries, arenas and pools driven to exhaustion, a 4 GiB region) written as (kind, n, size, seed); CacheAlignedVec over seven element types against a Vec shadow; non-trivial = history with at least two allocations"),
         shards: CoqShards::new(HEADER, 150),
         budget: if args.thorough { 9000 } else { 1500 },
         impl_bins: read_impl_bins(),
